@@ -759,6 +759,12 @@ class Run:
                                      f"before the creation was {self.home.get(c, bd)} (now {bd})", fl=True)
                 if ad != ud:
                     return self.fail(f"{label}: dtype of column {c} after the update is {ad}, update had {ud}", fl=cast)
+                if self.creation is not None and not cast:
+                    # C13: values an existing simulant already has must be repeated exactly or the update refused
+                    for l in range(min(self.creation["n_before"], n)):
+                        if bc[l] != ("N",) and not veq(ac[l], bc[l]):
+                            return self.fail(f"{label}: an initializer's update changed existing simulant {l}, column {c}: "
+                                             f"{bc[l]} -> {ac[l]} and was not refused")
                 for l in range(n):
                     e = supplied[c].get(l, bc[l])
                     if not (ac[l] == e or ac[l] in allsup[c].get(l, []) or (cast and veq(ac[l], e))):
@@ -1425,8 +1431,12 @@ def run_edge(case):
             ac = A["cols"][c][1]
             for l in range(n):
                 if not veq(ac[l], bc[l]):
-                    return fail(f"{what}: existing simulant {l}, column {c}: {bc[l]} -> {ac[l]}")
+                    m = f"{what}: existing simulant {l}, column {c}: {bc[l]} -> {ac[l]}"
+                    if bc[l][0] == "I" and abs(bc[l][1]) > TWO53:
+                        return fz.append("[big-int class] " + m)          # finding F-Z
+                    return fail(m)
 
+    fz = []
     setup_exc = None
     try:
         sim.setup()
@@ -1510,5 +1520,9 @@ def run_edge(case):
         except Exception as e:
             fail(f"harness exception: {type(e).__name__}: {e}")
     tags.add("edge:" + where)
-    return Result(ok=not msgs, msg="; ".join(msgs[:3]), coq=None, key=_key(case), obs={"log": log[:12], "oracle": msgs[:3]},
-                  tags=tuple(sorted(tags)))
+    if fz:
+        tags.add("finding:F-Z")
+    res = Result(ok=not msgs and not fz, msg="; ".join((msgs + fz)[:3]), coq=None, key=_key(case),
+                 obs={"log": log[:12], "oracle": (msgs + fz)[:3]}, tags=tuple(sorted(tags)))
+    res.fs_only = bool(fz) and not msgs
+    return res
